@@ -123,9 +123,9 @@ class _Case:
                           bstyle=BSTYLES[int(rng.integers(len(BSTYLES)))],
                           order=('random', 'sorted', 'reverse')[int(rng.integers(3))])
 
-    def scalar(self, fn, clause, got, ref, scale, what):
+    def scalar(self, fn, clause, got, ref, scale, what, rel=False):
         got = complex(got); ref = complex(ref)
-        if not (abs(got - ref) <= 1e-9 * max(1.0, scale)):
+        if not (abs(got - ref) <= 1e-9 * (scale if rel and scale > 0 else max(1.0, scale))):
             self.fail(fn, clause, f'{what}: got {got}, dense reference {ref}, |diff| {abs(got - ref):.3e} (scale {scale:.3g})')
             return False
         return True
@@ -232,6 +232,10 @@ def run_case(c):
             op = k.mpo(*qo)
         else:
             op = k.mpo(0, 0)
+        small = c['seed'] % 4 == 2 and np.issubdtype(psi.A[0].dtype, np.inexact)
+        if small:
+            # a state of norm ~1e-8 (the expectation value of a general operator is then ~1e-16 and complex): comparisons are relative
+            psi.A[0] = psi.A[0] * 1e-8
         objs = [psi, op]
         dp, M = oracle.mps_dense(psi.A), oracle.mpo_dense(op.A)
         ref = dp.conj() @ M @ dp
@@ -246,7 +250,7 @@ def run_case(c):
         else:
             ok, got = k.call('operator_average', ptn.operator_average, psi, op)
             if ok:
-                k.scalar('operator_average', 'dense', got, ref, sc_, '<psi|op|psi>')
+                k.scalar('operator_average', 'dense', got, ref, sc_, '<psi|op|psi>', rel=small)
     elif kind == 'inner':
         if var in ('connected', 'offset_sector'):
             sp, sc, so = k.connected()
